@@ -189,6 +189,15 @@ func (f *Func) redefineInputs(opts ...Arg) (reflect.Type, error) {
 			})
 
 		case *typedArgVertex:
+			// A type-only value that was given to Redefine is passed on
+			// when the redefined function is called, so it isn't missing.
+			if _, ok := inputsProvided[graph.VertexID(&typedOutputVertex{
+				Type:    v.Type,
+				Subtype: v.Subtype,
+			})]; ok {
+				continue
+			}
+
 			sf = append(sf, reflect.StructField{
 				Name: fmt.Sprintf("V__Type_%d", len(sf)),
 				Type: v.Type,
